@@ -27,6 +27,7 @@ import (
 	"syscall"
 
 	hg "github.com/mosaicnetworks/babble/src/hashgraph"
+	"github.com/mosaicnetworks/babble/src/crypto/keys"
 	"github.com/mosaicnetworks/babble/src/node"
 	"github.com/mosaicnetworks/babble/src/peers"
 	"github.com/mosaicnetworks/babble/src/proxy"
@@ -201,6 +202,32 @@ func runC11child(r *Result, thorough bool) {
 			cl.members = append(cl.members, j)
 			joiner = j
 		}
+		// a faulty validator's offer: an event of some member q, signed with q's key, with the right
+		// self-parent and a known other-parent, whose index skips ahead (or repeats). The node refuses it;
+		// a refused insertion must not leave a trace that a later restart trips over (what was inserted
+		// afterwards is still there after the restart)
+		if rng.Intn(9) == 0 {
+			q := act[rng.Intn(len(act))]
+			hgb := b.core.Hashgraph()
+			if q != b {
+				if last, err := hgb.Store.LastEventFrom(q.peer.PubKeyString()); err == nil && last != "" {
+					if le, err := hgb.Store.GetEvent(last); err == nil {
+						op := ""
+						if olast, err := hgb.Store.LastEventFrom(a.peer.PubKeyString()); err == nil {
+							op = olast
+						}
+						idx := le.Index() + []int{2, 3, 0, 7}[rng.Intn(4)]
+						e := hg.NewEvent([][]byte{[]byte(fmt.Sprintf("skipped-%d", s))}, nil, nil, []string{last, op}, keys.FromPublicKey(&q.key.PublicKey), idx)
+						e.Sign(q.key)
+						if err := hgb.InsertEventAndRunConsensus(e, true); err == nil {
+							appendLine(filepath.Join(dir, "offers_accepted"), fmt.Sprint(s))
+						} else {
+							appendLine(filepath.Join(dir, "offers_refused"), fmt.Sprint(s))
+						}
+					}
+				}
+			}
+		}
 		cl.pull(a, b, -1)
 		cl.activateJoiners()
 		snapshot()
@@ -276,6 +303,10 @@ func runC11(r *Result, thorough bool) {
 		r.Inc("write_boundaries_inside_an_insertion", len(inWalk))
 		if _, err := os.Stat(filepath.Join(dir, "bigtx")); err == nil {
 			r.Inc("schedules_with_a_transaction_of_several_megabytes", 1)
+		}
+		r.Inc("refused_offers_with_a_skipped_or_repeated_index", len(readLines(filepath.Join(dir, "offers_refused"))))
+		if acc := readLines(filepath.Join(dir, "offers_accepted")); len(acc) > 0 {
+			r.violateFor("C07", fmt.Sprintf("schedule %d: an event whose index skips ahead or repeats was admitted at step %s", seed, acc[0]), "skipped-index-admitted", nil)
 		}
 		// the clean-shutdown case: recover from the dry run's databases
 		c11Recover(r, rng, dir, seed, -1, total)
